@@ -55,8 +55,8 @@ EXTENDS Integers, Sequences, FiniteSets, TLC
 CONSTANTS RPs,          \* (database, retention policy) pairs
           SubNames,     \* subscription names; a subscription key is <<rp, name>>
           DefIds,       \* indices into Catalog: definitions the metadata may hold
-          BufSize,      \* Config.WriteBufferSize
-          W,            \* Config.WriteConcurrency
+          Bufs,         \* values of Config.WriteBufferSize  (chosen in Init: bsz)
+          Ws,           \* values of Config.WriteConcurrency (chosen in Init: wact)
           MaxBatches, MaxChanges, MaxInc,
           Dev,          \* enabled deviations
           ServerOrder   \* TRUE: Service.Close only after PointsWriter.Close (cmd/influxd/run/server.go)
@@ -73,7 +73,8 @@ Mode(d) == Catalog[d].mode
 Creatable(d) == Mode(d) \in {"ALL", "ANY"}
 Keys == RPs \X SubNames
 CwIds == Keys \X (1..MaxInc)
-Workers == 1..W
+MaxW == CHOOSE w \in Ws : \A v \in Ws : v <= w
+Workers == 1..MaxW
 Batches == 1..MaxBatches
 Pts(b) == b                                  \* batch b carries b points (statistics count points)
 
@@ -86,9 +87,11 @@ VARIABLES meta, gen, changes,          \* metadata: Keys -> DefIds \cup {0}; gen
           subs, inc, cws, wr,          \* s.subs (key -> incarnation or 0), incarnations made, chanWriters, writer goroutines
           seen,                        \* ghost: the snapshot the last updateSubs worked from
           svcWritten, svcFail, createFail,
-          pwClosed, closedPts, closeRet, panicked
+          pwClosed, closedPts, closeRet, panicked,
+          wact, bsz                    \* the configuration of this service: write-concurrency, write-buffer-size
 
-vars == <<meta, gen, changes, wpc, wch, rpc, queue, nextB, brp, subs, inc, cws, wr, seen,
+conf == <<wact, bsz>>
+vars == <<conf, meta, gen, changes, wpc, wch, rpc, queue, nextB, brp, subs, inc, cws, wr, seen,
           svcWritten, svcFail, createFail, pwClosed, closedPts, closeRet, panicked>>
 
 Init ==
@@ -101,19 +104,20 @@ Init ==
   /\ seen = [k \in Keys |-> 0]
   /\ svcWritten = 0 /\ svcFail = 0 /\ createFail = 0
   /\ pwClosed = FALSE /\ closedPts = FALSE /\ closeRet = FALSE /\ panicked = FALSE
+  /\ wact \in Ws /\ bsz \in Bufs
 
 -----------------------------------------------------------------------------
 (* metadata *)
 MetaChange(k, d) ==
   /\ changes < MaxChanges /\ d # meta[k] /\ ~closeRet
   /\ meta' = [meta EXCEPT ![k] = d] /\ gen' = gen + 1 /\ changes' = changes + 1
-  /\ UNCHANGED <<wpc, wch, rpc, queue, nextB, brp, subs, inc, cws, wr, seen, svcWritten, svcFail, createFail,
+  /\ UNCHANGED <<conf, wpc, wch, rpc, queue, nextB, brp, subs, inc, cws, wr, seen, svcWritten, svcFail, createFail,
                  pwClosed, closedPts, closeRet, panicked>>
 
 -----------------------------------------------------------------------------
 (* waiter.  code as found:  for { ch := Get(); select { <-ch: Update()  |  <-closing: return } }          *)
 (*          repaired:       ch := Get() in Open(); for { select { <-ch: ch = Get(); Update()  |  <-closing: return } } *)
-WQuiet == UNCHANGED <<meta, gen, changes, rpc, queue, nextB, brp, subs, inc, cws, wr, seen, svcWritten, svcFail,
+WQuiet == UNCHANGED <<conf, meta, gen, changes, rpc, queue, nextB, brp, subs, inc, cws, wr, seen, svcWritten, svcFail,
                       createFail, pwClosed, closedPts, closeRet, panicked>>
 WGet ==
   /\ wpc \in {"get0", "get1"}
@@ -136,7 +140,7 @@ WaiterExit ==
 RecvUpdate ==
   /\ rpc = "idle" /\ wpc = "send"
   /\ rpc' = "upd" /\ wpc' = IF Fixed("lateChannel") THEN "wait" ELSE "get0"
-  /\ UNCHANGED <<meta, gen, changes, wch, queue, nextB, brp, subs, inc, cws, wr, seen, svcWritten, svcFail, createFail,
+  /\ UNCHANGED <<conf, meta, gen, changes, wch, queue, nextB, brp, subs, inc, cws, wr, seen, svcWritten, svcFail, createFail,
                  pwClosed, closedPts, closeRet, panicked>>
 
 Keep(k) == subs[k] # 0 /\ meta[k] # 0 /\ (cws[<<k, subs[k]>>].def = meta[k] \/ ~Fixed("keepOldDef"))
@@ -154,14 +158,16 @@ RunUpdate ==                 \* updateSubs: one Databases() snapshot, new chanWr
                ELSE IF Create(c[1]) /\ c[2] = inc[c[1]] + 1 THEN [NoCw EXCEPT !.st = "open", !.def = meta[c[1]]]
                ELSE cws[c]]
   /\ wr' = [x \in CwIds \X Workers |->
-               IF Create(x[1][1]) /\ x[1][2] = inc[x[1][1]] + 1 THEN [NoWr EXCEPT !.pc = "idle"] ELSE wr[x]]
+               IF Create(x[1][1]) /\ x[1][2] = inc[x[1][1]] + 1
+               THEN [NoWr EXCEPT !.pc = IF x[2] <= wact THEN "idle" ELSE "exit"]   \* only wact goroutines are started
+               ELSE wr[x]]
   /\ subs' = [k \in Keys |-> IF Create(k) THEN inc[k] + 1 ELSE IF CloseOld(k) THEN 0 ELSE subs[k]]
   /\ inc' = [k \in Keys |-> IF Create(k) THEN inc[k] + 1 ELSE inc[k]]
   /\ createFail' = createFail + Cardinality({k \in Keys : CreateFails(k)})
-  /\ UNCHANGED <<meta, gen, changes, wpc, wch, queue, nextB, brp, svcWritten, svcFail, pwClosed, closedPts, closeRet, panicked>>
+  /\ UNCHANGED <<conf, meta, gen, changes, wpc, wch, queue, nextB, brp, svcWritten, svcFail, pwClosed, closedPts, closeRet, panicked>>
 
 Targets(b) == {k \in Keys : subs[k] # 0 /\ k[1] = brp[b]}
-Full(c) == Len(cws[c].buf) >= BufSize
+Full(c) == Len(cws[c].buf) >= bsz
 
 RunBatch ==                  \* one batch from s.points: non-blocking send to every matching chanWriter
   /\ rpc = "idle" /\ queue # <<>>
@@ -174,7 +180,7 @@ RunBatch ==                  \* one batch from s.points: non-blocking send to ev
                   ELSE cws[c]]
      /\ svcFail' = svcFail + Cardinality({k \in T : Full(<<k, subs[k]>>)})
      /\ panicked' = (panicked \/ \E k \in T : cws[<<k, subs[k]>>].st # "open")   \* send on a closed channel
-  /\ UNCHANGED <<meta, gen, changes, wpc, wch, rpc, nextB, brp, subs, inc, wr, seen, svcWritten, createFail,
+  /\ UNCHANGED <<conf, meta, gen, changes, wpc, wch, rpc, nextB, brp, subs, inc, wr, seen, svcWritten, createFail,
                  pwClosed, closedPts, closeRet>>
 
 RunClose ==                  \* s.points closed and drained: close every chanWriter, then wait for the writers
@@ -183,7 +189,7 @@ RunClose ==                  \* s.points closed and drained: close every chanWri
   /\ cws' = [c \in CwIds |-> IF subs[c[1]] = c[2] THEN [cws[c] EXCEPT !.st = "closed"] ELSE cws[c]]
   /\ panicked' = (panicked \/ \E k \in Keys : subs[k] # 0 /\ cws[<<k, subs[k]>>].st # "open")  \* double close
   /\ subs' = [k \in Keys |-> 0]
-  /\ UNCHANGED <<meta, gen, changes, wpc, wch, queue, nextB, brp, inc, wr, seen, svcWritten, svcFail, createFail,
+  /\ UNCHANGED <<conf, meta, gen, changes, wpc, wch, queue, nextB, brp, inc, wr, seen, svcWritten, svcFail, createFail,
                  pwClosed, closedPts, closeRet>>
 
 AllWritersGone == \A x \in CwIds \X Workers : wr[x].pc \in {"none", "exit"}
@@ -191,7 +197,7 @@ AllWritersGone == \A x \in CwIds \X Workers : wr[x].pc \in {"none", "exit"}
 RunJoin ==
   /\ rpc = "join" /\ AllWritersGone
   /\ rpc' = "done"
-  /\ UNCHANGED <<meta, gen, changes, wpc, wch, queue, nextB, brp, subs, inc, cws, wr, seen, svcWritten, svcFail,
+  /\ UNCHANGED <<conf, meta, gen, changes, wpc, wch, queue, nextB, brp, subs, inc, cws, wr, seen, svcWritten, svcFail,
                  createFail, pwClosed, closedPts, closeRet, panicked>>
 
 -----------------------------------------------------------------------------
@@ -199,7 +205,7 @@ RunJoin ==
 NextIdx(i, n) == (i % n) + 1
 PrivateAll(c) == Mode(cws[c].def) = "ALL" /\ Fixed("sharedCursor")   \* repaired: ALL walks 1..n without the cursor
 
-WQuietW == UNCHANGED <<meta, gen, changes, wpc, wch, rpc, queue, nextB, brp, subs, inc, seen, createFail,
+WQuietW == UNCHANGED <<conf, meta, gen, changes, wpc, wch, rpc, queue, nextB, brp, subs, inc, seen, createFail,
                        pwClosed, closedPts, closeRet, panicked>>
 WTake(c, w) ==
   /\ wr[<<c, w>>].pc = "idle" /\ cws[c].buf # <<>>
@@ -239,21 +245,21 @@ Arrive(r) ==
   /\ brp' = [brp EXCEPT ![nextB] = r] /\ nextB' = nextB + 1
   /\ IF closedPts THEN panicked' = TRUE /\ UNCHANGED queue           \* send on closed channel
                   ELSE queue' = Append(queue, nextB) /\ UNCHANGED panicked
-  /\ UNCHANGED <<meta, gen, changes, wpc, wch, rpc, subs, inc, cws, wr, seen, svcWritten, svcFail, createFail,
+  /\ UNCHANGED <<conf, meta, gen, changes, wpc, wch, rpc, subs, inc, cws, wr, seen, svcWritten, svcFail, createFail,
                  pwClosed, closedPts, closeRet>>
 PWClose ==
   /\ ~pwClosed /\ pwClosed' = TRUE
-  /\ UNCHANGED <<meta, gen, changes, wpc, wch, rpc, queue, nextB, brp, subs, inc, cws, wr, seen, svcWritten, svcFail,
+  /\ UNCHANGED <<conf, meta, gen, changes, wpc, wch, rpc, queue, nextB, brp, subs, inc, cws, wr, seen, svcWritten, svcFail,
                  createFail, closedPts, closeRet, panicked>>
 CloseBegin ==
   /\ ~closedPts /\ (ServerOrder => pwClosed)
   /\ closedPts' = TRUE
-  /\ UNCHANGED <<meta, gen, changes, wpc, wch, rpc, queue, nextB, brp, subs, inc, cws, wr, seen, svcWritten, svcFail,
+  /\ UNCHANGED <<conf, meta, gen, changes, wpc, wch, rpc, queue, nextB, brp, subs, inc, cws, wr, seen, svcWritten, svcFail,
                  createFail, pwClosed, closeRet, panicked>>
 CloseEnd ==
   /\ closedPts /\ ~closeRet /\ rpc = "done" /\ wpc = "done"
   /\ closeRet' = TRUE
-  /\ UNCHANGED <<meta, gen, changes, wpc, wch, rpc, queue, nextB, brp, subs, inc, cws, wr, seen, svcWritten, svcFail,
+  /\ UNCHANGED <<conf, meta, gen, changes, wpc, wch, rpc, queue, nextB, brp, subs, inc, cws, wr, seen, svcWritten, svcFail,
                  createFail, pwClosed, closedPts, panicked>>
 
 ServiceStep ==
@@ -308,7 +314,7 @@ X02b_Any ==
        /\ \A t \in oks, u \in A : u <= t
        /\ Completed(c, b) => (Cardinality(oks) = 1 \/ Cardinality(A) = NDests(cws[c].def))
 X02b_OrderW1 ==
-  W = 1 => \A c \in Live :
+  wact = 1 => \A c \in Live :
     LET a == cws[c].att n == NDests(cws[c].def) IN
     /\ \A t \in 1..Len(a) : a[t].j = ((t - 1) % n) + 1            \* round robin over the destination list
     /\ \A t, u \in 1..Len(a) : t < u => a[t].b <= a[u].b
@@ -320,7 +326,7 @@ X02c_Accounting ==
   \A c \in Live :
     /\ Increasing(cws[c].acc) /\ Increasing(cws[c].drop)
     /\ SeqToSet(cws[c].acc) \cap SeqToSet(cws[c].drop) = {}
-    /\ Len(cws[c].buf) <= BufSize
+    /\ Len(cws[c].buf) <= bsz
     /\ \A t \in 1..Len(cws[c].att) : cws[c].att[t].b \in SeqToSet(cws[c].acc)
     /\ \A w \in Workers : wr[<<c, w>>].pc = "call" => wr[<<c, w>>].b \in SeqToSet(cws[c].acc)
 X02c_RunNeverBlocked == (rpc = "idle" /\ queue # <<>>) => ENABLED RunBatch
